@@ -421,6 +421,7 @@ type replyVariant struct {
 	name   string
 	status memd.StatusCode
 	rbSeq  uint64 // for rollback
+	silent bool   // the request is never answered
 }
 
 var normalReply = replyVariant{name: "ok"}
